@@ -25,7 +25,7 @@ use std::collections::BTreeMap;
 
 use super::model::{Args, Ev, OpRec, Seen, Table, Tr, H, M};
 use super::prog::{is_map, Prog, N_VALUES};
-use super::scenario::{HScenario, POp};
+use super::scenario::{HScenario, POp, DIRECT_MIN};
 use crate::core::Violation;
 
 #[derive(Debug, Default, Clone)]
@@ -39,6 +39,8 @@ pub struct Stats {
     pub depth_max: u64,
     pub suspends: u64,
     pub fails: u64,
+    pub stops: u64,
+    pub directs: u64,
     pub fails_swallowed: u64,
     pub fatal: bool,
     pub remove_absent: u64,
@@ -47,7 +49,13 @@ pub struct Stats {
     pub aborted_frames: u64,
 }
 
-struct Abort;
+#[derive(Debug, Clone, Copy, PartialEq, Eq)]
+enum Abort {
+    /// `context.fail`.
+    Fail,
+    /// `context.stop`.
+    Stop,
+}
 
 struct Ref<'a> {
     table: &'a Table,
@@ -139,7 +147,16 @@ impl<'a> Ref<'a> {
             Prog::Fail => {
                 self.out.push(Tr::Failing);
                 self.st.fails += 1;
-                return Err(Abort);
+                return Err(Abort::Fail);
+            }
+            Prog::AndThen { first, body } => {
+                self.exec(first)?;
+                self.exec(body)?;
+            }
+            Prog::Stop => {
+                self.out.push(Tr::Stopping);
+                self.st.stops += 1;
+                return Err(Abort::Stop);
             }
         }
         Ok(())
@@ -214,16 +231,74 @@ pub fn reference(sc: &HScenario, recorded: &[Tr], facts: &RunFacts) -> (Vec<Tr>,
         st: Stats::default(),
     };
     let mut viol = vec![];
-    let order: Vec<i32> = recorded.iter().filter_map(|t| if let Tr::Top { id } = t { Some(*id) } else { None }).collect();
+    // Top-level triggers in recorded order: programs / continuations (`Top{id}`) and commands sent straight to a
+    // lane, recognised by their unique values >= DIRECT_MIN in the first handler they trigger.
+    let mut directs: Vec<(i32, i32, i32)> = vec![];
+    for p in &sc.peers {
+        for op in &p.ops {
+            if let POp::Direct { item, key, value } = op {
+                directs.push((*item, *key, *value));
+            }
+        }
+    }
+    let order: Vec<Trig> = recorded
+        .iter()
+        .filter_map(|t| match t {
+            Tr::Top { id } => Some(Trig::Id(*id)),
+            Tr::Enter { h: H::Item(i, Ev::OnEvent), args: Args::Event { new } } if *new >= DIRECT_MIN => Some(Trig::Direct(*i, 0, *new)),
+            Tr::Enter { h: H::Item(i, Ev::OnUpdate), args: Args::Update { key, new, .. } } if *new >= DIRECT_MIN => Some(Trig::Direct(*i, *key, *new)),
+            _ => None,
+        })
+        .collect();
+    let mut stopped = false;
     let mut seen_ids: BTreeMap<i32, u32> = BTreeMap::new();
     let mut first_swallowed: Option<usize> = None;
 
     // on_start runs before anything else.
     let mut fatal = r.run_handler(H::Start, Args::None).is_err();
     if !fatal {
-        for id in order {
+        for trig in order {
             r.trigger += 1;
             r.depth = 0;
+            let id = match trig {
+                Trig::Id(id) => id,
+                Trig::Direct(item, key, value) => {
+                    let sent = directs.iter().position(|d| if is_map(item) { *d == (item, key, value) } else { d.0 == item && d.2 == value });
+                    let Some(pos) = sent else {
+                        viol.push(Violation::new("C06", "C06.trace", "unknown_direct_command", format!("the handlers of item {item} ran for the value {value} (key {key}) that no peer sent to the lane")));
+                        break;
+                    };
+                    directs.remove(pos);
+                    r.st.directs += 1;
+                    let res = if is_map(item) {
+                        let m = &mut r.maps[item as usize - N_VALUES];
+                        let prev = m.insert(key, value);
+                        let map = m.clone();
+                        r.run_handler(H::Item(item, Ev::OnUpdate), Args::Update { map, key, prev, new: value })
+                    } else {
+                        let prev = std::mem::replace(&mut r.vals[item as usize], value);
+                        r.run_handler(H::Item(item, Ev::OnEvent), Args::Event { new: value })
+                            .and_then(|_| r.run_handler(H::Item(item, Ev::OnSet), Args::Set { prev: Some(prev), new: value }))
+                    };
+                    match res {
+                        Ok(()) => {}
+                        Err(Abort::Stop) => {
+                            stopped = true;
+                            break;
+                        }
+                        Err(Abort::Fail) => {
+                            // Same arm of the agent's event loop as a program received on `run`: logged, carries on.
+                            let at = r.out.len() - 1;
+                            if recorded.len() == at + 1 && facts.agent_ok == Some(false) {
+                                fatal = true;
+                                break;
+                            }
+                            r.st.fails_swallowed += 1;
+                        }
+                    }
+                    continue;
+                }
+            };
             if id < 1000 {
                 let Some(prog) = programs.get(&id) else {
                     viol.push(Violation::new("C06", "C06.trace", "unknown_program", format!("a program with id {id} ran that no peer sent")));
@@ -239,7 +314,11 @@ pub fn reference(sc: &HScenario, recorded: &[Tr], facts: &RunFacts) -> (Vec<Tr>,
                 r.out.push(Tr::Top { id });
                 match r.exec(prog) {
                     Ok(()) => r.out.push(Tr::TopEnd { id }),
-                    Err(Abort) => {
+                    Err(Abort::Stop) => {
+                        stopped = true;
+                        break;
+                    }
+                    Err(Abort::Fail) => {
                         // The code logs the error of a handler started by a lane command and the
                         // agent carries on; the reference does the same so that the rest of the
                         // run can be judged, and reports the disagreement with the document once
@@ -281,7 +360,11 @@ pub fn reference(sc: &HScenario, recorded: &[Tr], facts: &RunFacts) -> (Vec<Tr>,
                 r.out.push(Tr::Top { id });
                 match r.exec(body) {
                     Ok(()) => r.out.push(Tr::TopEnd { id }),
-                    Err(Abort) => {
+                    Err(Abort::Stop) => {
+                        stopped = true;
+                        break;
+                    }
+                    Err(Abort::Fail) => {
                         fatal = true;
                         break;
                     }
@@ -290,7 +373,8 @@ pub fn reference(sc: &HScenario, recorded: &[Tr], facts: &RunFacts) -> (Vec<Tr>,
         }
     }
     let conts_before_stop: u64 = r.pending.values().map(|v| v.len() as u64).sum();
-    if !fatal && viol.is_empty() && facts.stop_triggered {
+    // A handler asked the agent to stop: on_stop runs, nothing else does.
+    if !fatal && viol.is_empty() && (facts.stop_triggered || stopped) {
         r.trigger += 1;
         r.depth = 0;
         let _ = r.run_handler(H::Stop, Args::None);
@@ -339,7 +423,7 @@ pub fn reference(sc: &HScenario, recorded: &[Tr], facts: &RunFacts) -> (Vec<Tr>,
                 fmt_ctx(recorded, i)
             ),
         ));
-    } else if complete && !fatal && facts.stop_triggered && facts.agent_ok == Some(true) && conts_before_stop > 0 && !facts.time_budget_exhausted {
+    } else if complete && !fatal && !stopped && facts.stop_triggered && facts.agent_ok == Some(true) && conts_before_stop > 0 && !facts.time_budget_exhausted {
         // Every sleep of a continuation is far shorter than the quiet window the harness waits for
         // before it stops the agent.
         viol.push(Violation::new(
@@ -353,6 +437,13 @@ pub fn reference(sc: &HScenario, recorded: &[Tr], facts: &RunFacts) -> (Vec<Tr>,
 }
 
 #[derive(Debug, Clone, Copy, PartialEq, Eq)]
+enum Trig {
+    Id(i32),
+    /// (item, key, value) of a command sent straight to a lane.
+    Direct(i32, i32, i32),
+}
+
+#[derive(Debug, Clone, Copy, PartialEq, Eq)]
 enum Closer {
     Exit(H),
     TopEnd(i32),
@@ -362,6 +453,8 @@ enum Flow {
     Done,
     /// A `Failing` entry ended the whole trigger.
     Abort,
+    /// A `Stopping` entry ended the whole trigger: on_stop is next, then nothing.
+    Stopped,
     /// The trace ended inside a handler.
     End,
     /// A violation was recorded; the rest of the trace is not interpreted.
@@ -434,6 +527,10 @@ impl<'a> Chk<'a> {
                 Tr::Failing => {
                     self.pos += 1;
                     return Flow::Abort;
+                }
+                Tr::Stopping => {
+                    self.pos += 1;
+                    return Flow::Stopped;
                 }
             }
         }
@@ -529,8 +626,11 @@ pub fn check_structure(recorded: &[Tr], facts: &RunFacts) -> Vec<Violation> {
     let mut after_abort = false;
     let mut stop_seen = false;
     let mut fatal_abort = false;
+    // A handler asked the agent to stop: the next (and last) trigger must be on_stop.
+    let mut stopping = false;
     match c.body(Closer::Exit(H::Start)) {
         Flow::Done => {}
+        Flow::Stopped => stopping = true,
         Flow::Abort => {
             after_abort = true;
             fatal_abort = true;
@@ -544,12 +644,44 @@ pub fn check_structure(recorded: &[Tr], facts: &RunFacts) -> Vec<Violation> {
             c.bad("C06.start_stop", "after_stop", format!("{} was recorded after on_stop", e.kind()));
             return c.viol;
         }
+        if stopping && !matches!(e, Tr::Enter { h: H::Stop, .. }) {
+            c.bad("C06.after_stop", &format!("continued:{}", e.kind()), format!("{} was executed after a handler asked the agent to stop: only on_stop may follow", e.kind()));
+            return c.viol;
+        }
         match e {
+            // A command sent straight to a lane: the lane's own handlers are the top level.
+            Tr::Enter { h: H::Item(item, Ev::OnEvent), args: Args::Event { new } } if new >= DIRECT_MIN => {
+                after_abort = false;
+                match c.apply(OpRec::Set { item, value: new }) {
+                    Flow::Done => {}
+                    Flow::Stopped => stopping = true,
+                    Flow::Abort => {
+                        after_abort = true;
+                        fatal_abort = false;
+                    }
+                    Flow::End => incomplete = true,
+                    Flow::Bad => return c.viol,
+                }
+            }
+            Tr::Enter { h: H::Item(item, Ev::OnUpdate), args: Args::Update { key, new, .. } } if new >= DIRECT_MIN => {
+                after_abort = false;
+                match c.apply(OpRec::Update { item, key, value: new }) {
+                    Flow::Done => {}
+                    Flow::Stopped => stopping = true,
+                    Flow::Abort => {
+                        after_abort = true;
+                        fatal_abort = false;
+                    }
+                    Flow::End => incomplete = true,
+                    Flow::Bad => return c.viol,
+                }
+            }
             Tr::Top { id } => {
                 after_abort = false;
                 c.pos += 1;
                 match c.body(Closer::TopEnd(id)) {
                     Flow::Done => {}
+                    Flow::Stopped => stopping = true,
                     Flow::Abort => {
                         after_abort = true;
                         fatal_abort = id > 1000;
@@ -563,7 +695,7 @@ pub fn check_structure(recorded: &[Tr], facts: &RunFacts) -> Vec<Violation> {
                 c.pos += 1;
                 stop_seen = true;
                 match c.body(Closer::Exit(H::Stop)) {
-                    Flow::Done | Flow::Abort => {}
+                    Flow::Done | Flow::Abort | Flow::Stopped => {}
                     Flow::End => incomplete = true,
                     Flow::Bad => return c.viol,
                 }
@@ -590,7 +722,7 @@ pub fn check_structure(recorded: &[Tr], facts: &RunFacts) -> Vec<Violation> {
         c.bad("C06.nesting", "incomplete", "the agent ended but a handler that was entered never completed (and did not fail)".into());
         return c.viol;
     }
-    if complete && facts.stop_triggered && facts.agent_ok == Some(true) && !stop_seen && !fatal_abort {
+    if complete && (facts.stop_triggered || stopping) && facts.agent_ok == Some(true) && !stop_seen && !fatal_abort {
         c.viol.push(Violation::new("C06", "C06.start_stop", "stop_missing", "the agent stopped cleanly but on_stop was never entered".into()));
     }
     for p in &facts.panics {
